@@ -2,9 +2,11 @@ package sess
 
 import (
 	"os"
+	"strings"
 	"testing"
 	"testing/cryptotest"
 
+	"verifsim/chn"
 	"verifsim/simcore"
 )
 
@@ -15,6 +17,11 @@ func TestSim(t *testing.T) {
 		prop = "C06"
 	}
 	simcore.Main(prop, []string{"random"}, func(st *simcore.Stream, tier, leg string, logOn bool, res *simcore.Result) {
+		if strings.HasPrefix(leg, "chan-") {
+			// channel-level leg of C02: real Channels under the parking scheduler
+			simcore.Bubble(t, res.Seed, func() { chn.RunC02(st, tier, leg, logOn, res) })
+			return
+		}
 		cryptotest.SetGlobalRandom(t, res.Seed)
 		switch prop {
 		case "C06":
